@@ -132,6 +132,7 @@ func runLifecycle(s *sim.Sim, o lifecycleOpts) *world {
 					alts = append(alts, alt{"stop-" + a.id, 1, func() {
 						spend("stop")
 						a.stopAsked = true
+						a.disturbedAt = s.Elapsed() // the shutdown path starts a new heartbeat ticker
 						s.Do("stop-"+a.id, func() { a.svc.StopAsync() })
 					}})
 				}
@@ -165,7 +166,7 @@ func runLifecycle(s *sim.Sim, o lifecycleOpts) *world {
 		}
 		inFlightCAS := false
 		for _, nm := range names {
-			if strings.HasSuffix(nm, ":f") {
+			if isInFlight(nm) {
 				inFlightCAS = true
 			}
 		}
@@ -220,7 +221,7 @@ func runLifecycle(s *sim.Sim, o lifecycleOpts) *world {
 			if len(s.Parked()) > 0 {
 				s.Fault("stall")
 				for _, nm := range s.Parked() {
-					if a := w.byID[strings.SplitN(nm, ":", 2)[0]]; a != nil {
+					if a := w.byID[strings.SplitN(nm, ":", 2)[0]]; a != nil && strings.Contains(nm, ":") {
 						a.disturbedAt = s.Elapsed() + d
 					}
 				}
@@ -285,6 +286,11 @@ func (w *world) markInherited(a *actor) {
 	if e, ok := w.desc().Ingesters[a.id]; ok {
 		for _, x := range e.Tokens {
 			a.inheritedTokens[x] = true
+		}
+		if (e.State == ring.ACTIVE || e.State == ring.LEAVING) && len(e.Tokens) < a.numTokens {
+			// it inherits an entry that is ACTIVE with fewer tokens than configured (tokens handed over,
+			// externally forced ACTIVE): not a fresh join
+			a.handover = true
 		}
 	}
 }
@@ -364,6 +370,21 @@ func (w *world) clientOperation(a *actor, seq *int, inflight map[string]*clientO
 				finish(a.basic.ChangeReadOnlyState(ctx, ro))
 			}
 		})
+	case k == 2 && a.kind == kindClassic:
+		// legal but unusual: an external PENDING -> ACTIVE before the instance picked tokens
+		if a.classic.GetState() != ring.PENDING || !s.Chance(0.3, "force-active") {
+			delete(inflight, name)
+			return
+		}
+		s.Go(name+"-force-active", func() {
+			if stale() {
+				finish(nil)
+				return
+			}
+			a.handover = true // tokens do not come from a fresh join
+			s.Probe("forced-active-without-tokens")
+			finish(a.classic.ChangeState(ctx, ring.ACTIVE))
+		})
 	case k == 3 && a.kind == kindClassic:
 		flag := s.Chance(0.5, "unregister-flag")
 		a.classic.SetUnregisterOnShutdown(flag)
@@ -433,10 +454,15 @@ func (w *world) checkHeartbeats() {
 	s := w.s
 	now := s.Elapsed()
 	for _, a := range w.actors {
-		if a.heartbeat == 0 || !a.started || a.crashed || a.stopAsked {
+		if a.heartbeat == 0 || !a.started || a.crashed {
 			continue
 		}
-		if a.svc.State() != services.Running || a.kvWindowOpen {
+		shuttingDown := a.stopAsked && a.svc.State() == services.Stopping && a.transferring
+		if a.stopAsked && !shuttingDown {
+			a.disturbedAt = now
+			continue
+		}
+		if (a.svc.State() != services.Running && !shuttingDown) || a.kvWindowOpen {
 			a.disturbedAt = now
 			continue
 		}
@@ -459,7 +485,12 @@ func (w *world) checkHeartbeats() {
 			continue
 		}
 		if now-last > a.heartbeat+a.heartbeat/2+time.Second {
-			s.Fail("heartbeat-missed", "", "%s (heartbeat %v) has not written for %v although the store accepts writes and it was not stalled", a.id, a.heartbeat, now-last)
+			what := "running"
+			if shuttingDown {
+				what = "shutting down (LEAVING, hand-over in progress)"
+				s.Probe("heartbeat-checked-while-leaving")
+			}
+			s.Fail("heartbeat-missed", "", "%s (heartbeat %v, %s) has not written for %v although the store accepts writes and it was not stalled", a.id, a.heartbeat, what, now-last)
 		}
 	}
 }
